@@ -22,6 +22,14 @@ pub enum IoPlan {
     Benign { seed: u64, per_mille: u32 },
 }
 
+static FIRED_FILE: Mutex<Option<std::path::PathBuf>> = Mutex::new(None);
+
+/// Where to note that the armed fault fired (written before the decision takes effect, because
+/// the decision may be to die).
+pub fn set_fired_file(p: Option<std::path::PathBuf>) {
+    *FIRED_FILE.lock().unwrap() = p;
+}
+
 #[derive(Default)]
 pub struct FState {
     pub knobs: HashMap<&'static str, u64>,
@@ -95,6 +103,12 @@ impl verif_rt::Hooks for FHooks {
             None | Some(IoPlan::Record) => IoDecision::Proceed,
             Some(IoPlan::At { k: at, decision }) => {
                 if k == at {
+                    if let Some(p) = FIRED_FILE.lock().unwrap().as_ref() {
+                        let _ = std::fs::write(
+                            p,
+                            format!("{k} {} {} {}", rec.kind.as_str(), rec.file, rec.len),
+                        );
+                    }
                     st.io_fired = Some((k, rec));
                     decision
                 } else {
